@@ -34,6 +34,24 @@ TRUSTED_BASE = [
 ]
 
 
+_GUARDS = None
+
+
+def guards_for(u):
+    """Heavy callees with an oracle contract that the unit's entry does NOT reach on the pinned tree (engine/guards.json,
+    written by engine/gen_guards.py): replaced by their contracts as well, so that a change which starts calling one of
+    them is decided against the frame-only contract instead of timing out on a field inversion.  No effect on a tree
+    without such a call."""
+    global _GUARDS
+    if _GUARDS is None:
+        try:
+            _GUARDS = json.load(open(os.path.join(VERIF, "engine", "guards.json")))
+        except Exception:
+            _GUARDS = {}
+    have = set(u.replace) | set(u.enforce)
+    return [g for g in _GUARDS.get(u.name, []) if g not in have]
+
+
 class Unit:
     def __init__(self, name, props, harness, entry, cfg="W128", verify=False, enforce=(), replace=(),
                  assumed=(), loops=False, unwind=None, unwindset=(), flags=(), timeout=600, tier="quick",
@@ -114,6 +132,8 @@ def instrument_cmds(u, wd):
     for f in u.enforce:
         cmd += ["--enforce-contract", f]
     for g in u.replace:
+        cmd += ["--replace-call-with-contract", g]
+    for g in guards_for(u):
         cmd += ["--replace-call-with-contract", g]
     if u.loops:
         cmd += ["--apply-loop-contracts"]
